@@ -189,10 +189,15 @@ func (d *down) Completion(_ context.Context, p *protocol.CompletionParams) (*pro
 	}
 	// one item per detail (details separated by 0x1F)
 	var items []protocol.CompletionItem
-	for _, detail := range strings.Split(d.cur.Detail, "\x1f") {
+	for k, detail := range strings.Split(d.cur.Detail, "\x1f") {
 		it := protocol.CompletionItem{Label: "Item", Detail: detail}
 		if len(d.cur.Answer) > 0 {
-			it.TextEdit = &protocol.TextEdit{Range: toRange(d.cur.Answer[0].R), NewText: "Item"}
+			// item k replaces the k-th scripted range (the first one when there are fewer ranges than items)
+			a := d.cur.Answer[0]
+			if k < len(d.cur.Answer) {
+				a = d.cur.Answer[k]
+			}
+			it.TextEdit = &protocol.TextEdit{Range: toRange(a.R), NewText: "Item"}
 		}
 		if detail != "" {
 			// gopls attaches the import as an additional edit to the generated file
@@ -271,7 +276,7 @@ func run(srv *proxy.Server, cli *proxy.Client, d *down, op *Op) {
 	case "change":
 		err := srv.DidChange(ctx, &protocol.DidChangeTextDocumentParams{
 			TextDocument:   protocol.VersionedTextDocumentIdentifier{Version: op.Version, TextDocumentIdentifier: protocol.TextDocumentIdentifier{URI: uri}},
-			ContentChanges: []protocol.TextDocumentContentChangeEvent{{Text: op.Text}}})
+			ContentChanges: contentChanges(op.Text)})
 		emit("R change err=%v", err != nil)
 	case "close":
 		err := srv.DidClose(ctx, &protocol.DidCloseTextDocumentParams{TextDocument: protocol.TextDocumentIdentifier{URI: uri}})
@@ -444,4 +449,14 @@ func main() {
 		run(srv, cli, d, op)
 	}
 	out.Flush()
+}
+
+// contentChanges: one full-text content change per segment of the text (segments are separated by 0x1E);
+// the editor protocol applies them in order, so the last one is the buffer
+func contentChanges(text string) []protocol.TextDocumentContentChangeEvent {
+	var out []protocol.TextDocumentContentChangeEvent
+	for _, t := range strings.Split(text, "\x1e") {
+		out = append(out, protocol.TextDocumentContentChangeEvent{Text: t})
+	}
+	return out
 }
